@@ -132,7 +132,41 @@ pub fn run(outdir: &str, seed: u64, thorough: bool) -> serde_json::Value {
         }
         if made <= 2 { st.sample(json!({"query":sql,"name":rel1.name()})); }
     }
-    let mut out = st.to_json("generated queries of the supported fragment, select lists with unnamed and repeated items (implicit aliases), and two queries with RANDOM(): compiled, compiled again after 0-5 counter requests / another compilation / a reset, compiled in 4 threads with interleaved other compilations, rendered twice, rendered text re-parsed (schema names, order, types; results on SQLite) and re-parsed once more; distinct by query text");
+    // (e) order of calls within one thread: B compiled after A in a fresh thread vs B compiled alone in a fresh
+    // thread, for every ordered pair of a pool that varies arities, casts and optional arguments of the
+    // functions whose implementations are built on demand
+    let pool = ["SELECT CONCAT(t.city, t.city) AS x FROM users AS t", "SELECT CONCAT(t.city, t.city, t.city) AS x FROM users AS t",
+        "SELECT CONCAT(t.city, '-', o.status, '!') AS x FROM users AS t JOIN orders AS o ON t.id = o.user_id",
+        "SELECT COALESCE(t.score, 0) AS x FROM users AS t", "SELECT COALESCE(t.score, t.income) AS x FROM users AS t", "SELECT COALESCE(i.qty, 1) AS x FROM items AS i",
+        "SELECT CAST(t.age AS TEXT) AS x FROM users AS t", "SELECT CAST(t.income AS INTEGER) AS x FROM users AS t", "SELECT CAST(t.id AS FLOAT) AS x FROM users AS t", "SELECT CAST(t.city AS TEXT) AS x FROM users AS t",
+        "SELECT SUBSTR(t.city, 2) AS x FROM users AS t", "SELECT SUBSTR(t.city, 1, 2) AS x FROM users AS t",
+        "SELECT ROUND(t.income) AS x FROM users AS t", "SELECT ROUND(t.income, 1) AS x FROM users AS t",
+        "SELECT t.city IN ('Paris', 'Lyon') AS x FROM users AS t", "SELECT t.age IN (18, 19, 20) AS x FROM users AS t",
+        "SELECT LEAST(t.age, 30) AS x FROM users AS t", "SELECT GREATEST(t.age, t.id, 40) AS x FROM users AS t",
+        "SELECT CASE WHEN t.age > 30 THEN t.city ELSE 'none' END AS x FROM users AS t", "SELECT CASE WHEN t.age > 30 THEN 1 WHEN t.age > 20 THEN 2 ELSE 3 END AS x FROM users AS t",
+        "SELECT t.city AS c, COUNT(t.id) AS n, SUM(t.income) AS s FROM users AS t GROUP BY t.city", "SELECT o.status AS c, AVG(o.amount) AS n FROM orders AS o GROUP BY o.status"];
+    let alone: Vec<Option<(String, String, Vec<(String, String)>)>> = pool.iter().map(|q| { let q = q.to_string();
+        std::thread::spawn(move || { let w = world(); compile(&w, &q).map(|rel| (format!("{:?}", rel), render(&rel), schema_sig(&rel))) }).join().ok().flatten() }).collect();
+    for (i, a) in pool.iter().enumerate() {
+        for (j, b) in pool.iter().enumerate() {
+            if i == j || alone[j].is_none() || alone[i].is_none() { continue; }
+            if !thorough && (i * 31 + j * 17 + seed as usize) % 2 == 0 && !(a.contains("CONCAT") && b.contains("CONCAT")) && !(a.contains("COALESCE") && b.contains("COALESCE")) { continue; }
+            let (qa, qb) = (a.to_string(), b.to_string());
+            let after = std::thread::spawn(move || { let w = world(); let _ = compile(&w, &qa); compile(&w, &qb).map(|rel| (format!("{:?}", rel), render(&rel), schema_sig(&rel))) }).join().ok().flatten();
+            st.evaluations += 1; st.bump("history_pairs");
+            st.distinct.insert(hash_str(&format!("{}|{}", a, b)));
+            match (&after, &alone[j]) {
+                (Some(x), Some(y)) => if x != y {
+                    let what = if x.2 != y.2 { "schema" } else if x.1 != y.1 { "rendered SQL" } else { "relation" };
+                    st.violation(json!({"kind":"compilation-depends-on-earlier-compilation","class":"plain","earlier":a,"query":b,"differs_in":what,
+                        "schema_alone":y.2,"schema_after":x.2}));
+                },
+                (None, _) => st.violation(json!({"kind":"compilation-after-another-fails","class":"plain","earlier":a,"query":b})),
+                _ => {}
+            }
+        }
+    }
+    let mut out = st.to_json("generated queries of the supported fragment, select lists with unnamed and repeated items (implicit aliases), and two queries with RANDOM(): compiled, compiled again after 0-5 counter requests / another compilation / a reset, compiled in 4 threads with interleaved other compilations, rendered twice, rendered text re-parsed (schema names, order, types; results on SQLite) and re-parsed once more; ordered pairs of a 22-query pool of on-demand function implementations (CONCAT / COALESCE / CAST / SUBSTR / ROUND / IN / LEAST / CASE arities): the second compiled after the first in a fresh thread vs alone; distinct by query text");
     out["shards"] = json!({"c16_namer": f1, "c16_encode": f2});
     out
 }
